@@ -35,7 +35,8 @@ class _Sentinel(Client):
         self.pf, self.vars = pf, token_var
 
     def should_inline(self, func, call, ctx):
-        return False
+        # the thread's own private helpers (`_join_retired`, `_start_successor`) are part of the protocol
+        return func.cls is self.pf.replacer and func.name.startswith("_") and not func.name.startswith("__")
 
     def refine(self, test, state, ctx):
         if isinstance(test, ast.Compare) and len(test.ops) == 1 and isinstance(test.left, ast.Name) and test.left.id in self.vars \
@@ -165,7 +166,8 @@ class _Replace(Client):
         self.problems: List[Tuple[int, str]] = []
 
     def should_inline(self, func, call, ctx):
-        return False
+        # the thread's own private helpers (`_join_retired`, `_start_successor`) are part of the protocol
+        return func.cls is self.pf.replacer and func.name.startswith("_") and not func.name.startswith("__")
 
     def refine(self, test, state, ctx):
         if isinstance(test, ast.Compare) and len(test.ops) == 1 and isinstance(test.left, ast.Name) and test.left.id in self.vars \
@@ -227,31 +229,54 @@ def r4_replace_order(prog, rep: Report, pf: PoolFacts):
               scenario="start() before _init_process(): the child process is forked without its queues (work_queue is None) and "
                        "dies; a successor that is not stored in procs is never sent a stop sentinel / joined by __exit__",
               line=probs[0][0] if probs else None)
-    # the stored index is the index found for the received wid
-    flow = Flow(run_.node)
-    idx_ok = False
-    wid_cmp = False
-    for n in walk_own(run_.node):
-        if isinstance(n, ast.For) and isinstance(n.iter, ast.Call) and src(n.iter.func) == "enumerate" and isinstance(n.target, ast.Tuple):
-            i_name = src(n.target.elts[0])
-            p_name = src(n.target.elts[1])
-            for sub in ast.walk(n):
-                if isinstance(sub, ast.Compare) and len(sub.ops) == 1 and isinstance(sub.ops[0], ast.Eq):
-                    sides = {src(sub.left), src(sub.comparators[0])}
-                    if f"{p_name}.wid" in sides and (sides - {f"{p_name}.wid"}) and next(iter(sides - {f"{p_name}.wid"})) in vars_:
-                        wid_cmp = True
-                        iff = getattr(sub, "_parent", None)
-                        if isinstance(iff, ast.If):
-                            for st in iff.body:
-                                if isinstance(st, ast.Assign) and src(st.value) == i_name and isinstance(st.targets[0], ast.Name):
-                                    found = st.targets[0].id
-                                    stores = [s for s in walk_own(run_.node) if isinstance(s, ast.Assign)
-                                              and isinstance(s.targets[0], ast.Subscript) and src(s.targets[0].slice) == found
-                                              and src(s.targets[0].value).endswith("procs")]
-                                    idx_ok = len(stores) == 1
-    rep.check("C03.R4", run_, "index", wid_cmp and idx_ok, "the successor replaces the entry whose wid equals the received wid",
-              "the successor is not stored at the index of the process whose wid equals the received wid",
-              scenario="the successor overwrites a live worker's slot: that worker is never stopped/joined and the retired one stays listed")
+    # the stored index is the index found for the received wid: read off the path summaries (the thread's private helpers
+    # followed): the successor is stored at the position of a walk over procs at which `<element>.wid == <received wid>` held
+    from ..paths import strip_versions, subterms, summaries
+
+    def inline(func, call, ctx):
+        return func.cls is pf.replacer and func.name.startswith("_") and not func.name.startswith("__")
+    ps, un = summaries(prog, run_, th, inline=inline)
+    if un:
+        rep.unrec("C03.R4", run_, "index", "; ".join(un))
+    else:
+        stores = 0
+        bad = unknown = None
+        for p_ in ps:
+            for e in p_.events:
+                if e[0] != "setitem":
+                    continue
+                base = strip_versions(e[1])
+                if not (isinstance(base, tuple) and base[0] == "attr" and base[2] == "procs"):
+                    continue
+                stores += 1
+                idx = strip_versions(e[2])
+                loop_id = idx[1] if isinstance(idx, tuple) and idx[0] == "idx" else None
+                if loop_id is None:
+                    unknown = unknown or "the successor is stored at an index that is not a position of a walk over procs"
+                    continue
+                matched = False
+                for d, o in p_.decisions:
+                    t, neg = strip_versions(d), False
+                    while isinstance(t, tuple) and t and t[0] == "not":
+                        t, neg = t[1], not neg
+                    if isinstance(t, tuple) and t[0] == "cmp" and t[1] in ("Eq", "NotEq"):
+                        holds = (o != neg) == (t[1] == "Eq")
+                        sides = [t[2], t[3]]
+                        wid_side = [x for x in sides if isinstance(x, tuple) and x[0] == "attr" and x[2] == "wid"
+                                    and isinstance(x[1], tuple) and x[1][0] == "elem" and x[1][2] == loop_id
+                                    and isinstance(x[1][1], tuple) and x[1][1][0] == "attr" and x[1][1][2] == "procs"]
+                        other = [x for x in sides if x not in wid_side]
+                        if wid_side and other and holds and any(st_[0] == "eff" and st_[1] == "get" for st_ in subterms(other[0])):
+                            matched = True
+                if not matched:
+                    bad = bad or "the successor is stored at a position of procs at which the worker's wid was not found equal to the received wid"
+        if bad:
+            rep.viol("C03.R4", run_, "index", "the successor is not stored at the index of the process whose wid equals the received wid: " + bad,
+                     scenario="the successor overwrites a live worker's slot: that worker is never stopped/joined and the retired one stays listed")
+        elif unknown or not stores:
+            rep.unrec("C03.R4", run_, "index", unknown or "no store into procs found")
+        else:
+            rep.ok("C03.R4", run_, "index", "the successor replaces the entry whose wid equals the received wid")
     fi = pf.fpool.methods.get(pf.init_process_name)
     if fi is None:
         rep.unrec("C03.R4", (pf.fpool.relpath, pf.fpool.short, pf.fpool.node.lineno), "init-process", "FactoryFunctorPool does not extend the worker initialisation")
